@@ -96,10 +96,10 @@ def ctx_shuffle(p, rng):
 
 
 def app_dup(p, rng):
-    apps = [(m, d) for k, m, path, d in _modules(p, ("apps",))]
+    apps = [(m, d, path) for k, m, path, d in _modules(p, ("apps",))]
     if not apps:
         return
-    a, d = rng.choice(apps)
+    a, d, apath = rng.choice(apps)
     cnames = [c["name"] for c in (_root(p).get("contexts") or []) + (_root(p).get("builders") or [])]
     for docs in p["files"].values():
         for dd in docs[1:]:
@@ -132,10 +132,15 @@ def app_dup(p, rng):
         b["sources"] = [a["name"] + "_dup.c"]
     if rng.random() < 0.3:
         b.setdefault("env", {}).setdefault("global", {})["X"] = "dup"
-    d["apps"].append(b)
     args = p.setdefault("args", {})
     if rng.random() < 0.6:
         args["apps"] = sorted(set((args.get("apps") or []) + [a["name"]]))
+    # the second definition sometimes lives in ANOTHER directory (local mode: the name is defined in the start directory and elsewhere)
+    import os
+    elsewhere = [dd for path, dd in _all_docs(p) if os.path.dirname(path) != os.path.dirname(apath) and not dd.get("contexts") and not dd.get("builders")]
+    if elsewhere and rng.random() < 0.4:
+        d = rng.choice(elsewhere)
+    d.setdefault("apps", []).append(b)
 
 
 FIELD_VARIANTS = [("description", "CC-A ${out}", "CC-B ${out}"), ("description", None, "compiling ${in}"), ("pool", None, "console"),
